@@ -11,15 +11,49 @@ from harness import c01
 PROPERTY = "C09"
 RULE = ("simulated full races (race control included) with exactly one injected fault: request fails under on-error=abort / fatal connection error, "
         "runner raises, parameter source raises, driver metrics store fails while samples are stored, race control's store fails in bulk_add, "
-        "a track preparation task fails, a worker process dies, the user cancels — at a random request index / call index / virtual time — plus "
+        "a track preparation task fails, one of several track processors raises when asked for its tasks, a request behind the retry wrapper is answered with a script of errors, a worker process dies, the user cancels — at a random request index / call index / virtual time — plus "
         "fault-free controls; signature = (fault kind, model branch tags, whether the fault fired before completion)")
-TRUSTED = ["the simulator's rules stand for Thespian (incl. ChildActorExited on process death, PoisonMessage after two failures)",
+TRUSTED = ["the model of runner.Retry is C16's (RallyModel/Retry.lean), composed here with the model of execute_single",
+           "the simulator's rules stand for Thespian (incl. ChildActorExited on process death, PoisonMessage after two failures)",
            "MechanicActor is replaced by an acknowledging stub here (the real one is C12)",
            "sender adjacency of the actors (who can send to whom) in the relay table is written by hand; forwarding targets, no_retry guards and PoisonMessage handlers are extracted from the AST"]
-ASSUMPTIONS = ["a single fault per race", "race() looks at the first reply only (actor_system.ask)"]
+ASSUMPTIONS = ["a single fault per race (kind request-retry: one script of answers to consecutive attempts of one client)", "race() looks at the first reply only (actor_system.ask)"]
 
 KINDS = ["request-abort", "request-connection", "runner-raises", "params-raise", "driver-store", "rc-store", "prep-task", "kill-worker", "cancel", "none", "outage",
-         "request-unsuccessful"]
+         "request-unsuccessful", "prep-processors", "request-retry"]
+
+# what one attempt of a request behind the retry wrapper can end with (fault value of the simulator -> outcome class of the Retry model)
+ATTEMPT_KINDS = {"api-408": "api408", "api-503": "apiOther", "api-404": "apiOther", "api-429": "apiOther", "connection-timeout": "connTimeout",
+                 "connection-error": "connError", "socket-timeout": "sockTimeout", "serialization-error": "transportOther",
+                 "unsuccessful-result": "dictFail", "runner-raises": "otherExc"}
+TIMEOUT_CLASS = {"api-408", "connection-timeout", "connection-error", "socket-timeout"}
+
+
+def retried_request_reference(retry, script, on_error):
+    """the property's own reading of requests behind the retry wrapper (documentation of the retry settings): the cluster answers the
+    consecutive attempts with `script` and is healthy afterwards; an invocation whose outcome does not end the race is followed by the
+    next invocation of the task (fresh retry budget). Returns (index of the attempt whose outcome must end the race | None,
+    attempts per invocation so far)"""
+    until = bool(retry.get("retry-until-success", False))
+    attempts = None if until else int(retry.get("retries", 0)) + 1
+    on_err = True if until else bool(retry.get("retry-on-error", False))
+    on_timeout = bool(retry.get("retry-on-timeout", True))
+    used = 0  # attempts of the current invocation made before this one
+    for i, k in enumerate(script):
+        last = attempts is not None and used + 1 >= attempts
+        retryable = (k in TIMEOUT_CLASS and on_timeout) or (k == "unsuccessful-result" and on_err)
+        if retryable and not last:
+            used += 1
+            continue
+        # this attempt's outcome is the outcome of the request
+        used = 0
+        if k in ("socket-timeout", "runner-raises"):
+            return i  # not an Elasticsearch client error: the runner raised
+        if k == "connection-error":
+            return i  # fatal under every policy
+        if on_error == "abort":
+            return i
+    return None  # nothing that ends the race
 
 
 def _quiet_abandoned_coroutines():
@@ -30,7 +64,7 @@ def _quiet_abandoned_coroutines():
     default = sys.unraisablehook
 
     def hook(u):
-        if "was created in a different Context" in str(u.exc_value) or "There is no current event loop" in str(u.exc_value):
+        if "was created in a different Context" in str(u.exc_value) or "There is no current event loop" in str(u.exc_value) or "coroutine ignored GeneratorExit" in str(u.exc_value):
             return
         default(u)
 
@@ -76,6 +110,44 @@ def gen(ctx):
         elif kind == "prep-task":
             sc["prep_tasks"] = rng.randint(1, 3)
             faults[("prep", rng.randrange(sc["prep_tasks"]))] = True
+        elif kind == "prep-processors":
+            # several track processors (Rally registers its own before those of the track's plugins); one of them cannot determine its
+            # tasks, or one task of one of them fails, or (control) nothing fails
+            procs = [{"tasks": rng.choice([0, 1, 1, 2, 3])} for _ in range(rng.randint(1, 4))]
+            sc["prep_processors"] = procs
+            p = rng.randrange(len(procs))
+            r = rng.random()
+            if r < 0.5:
+                faults[("prep-seed", p)] = True
+            elif r < 0.9 and procs[p]["tasks"] > 0:
+                faults[("prep", p, rng.randrange(procs[p]["tasks"]))] = True
+        elif kind == "request-retry":
+            # the request goes through the real retry wrapper (as cluster-health, create-index, … do): a script of answers to the attempts
+            plain = [x for e in sc["schedule"] for x in ([e["leaf"]] if "leaf" in e else e["par"]) if not x.get("subs")]
+            leafs = [e["leaf"] for e in sc["schedule"] if "leaf" in e and not e["leaf"].get("subs")]
+            t = rng.choice(leafs or plain or [t])
+            retry = {}
+            retries = rng.choice([0, 1, 1, 2, 3])
+            if rng.random() < 0.85:
+                retry["retries"] = retries
+            else:
+                retries = 0
+            if rng.random() < 0.4:
+                retry["retry-on-timeout"] = rng.random() < 0.7
+            if rng.random() < 0.4:
+                retry["retry-on-error"] = rng.random() < 0.7
+            retry["retry-wait-period"] = rng.choice([0, 0.125, 0.5])
+            if rng.random() < 0.08:
+                retry["retry-until-success"] = True
+            t["retry"] = retry
+            first = rng.choice(list(ATTEMPT_KINDS))
+            n = rng.choice([retries + 1, retries + 1, retries + 1, retries, retries + 2, 1])
+            script = [first if rng.random() < 0.8 else rng.choice(list(ATTEMPT_KINDS)) for _ in range(max(1, n))]
+            sc["on_error"] = "abort" if rng.random() < 0.8 else "continue"
+            c, n0 = cidx(), ridx()
+            for i, k in enumerate(script):
+                faults[("request", t["name"], c, n0 + i)] = k
+            sc["retry_case"] = {"task": t["name"], "client": c, "first_call": n0, "script": script, "retry": retry}
         elif kind == "kill-worker":
             timed.append([rng.choice([0.125, 0.3, 0.6, 1.1, 2.0, 4.0]), "kill-worker", rng.randrange(nworkers) if rng.random() < 0.9 else 3])
         elif kind == "cancel":
@@ -87,6 +159,9 @@ def gen(ctx):
         from harness import sim_race as _sr
 
         sc["fault_exc"] = rng.choice(_sr.FAULT_CLASSES) if rng.random() < 0.6 else "RuntimeError"
+        if kind == "request-retry":
+            # "runner-raises" stands for an exception that is not a time-out (socket.timeout, which the retry wrapper handles, is TimeoutError)
+            sc["fault_exc"] = rng.choice(["RuntimeError", "OSError", "KeyError", "AssertionError", "esrally.exceptions.RallyError", "ZeroDivisionError"])
         # configuration that changes what the actors do on start-up and shut-down
         sc["profiling"] = rng.random() < 0.08  # --enable-driver-profiling wraps every executor
         sc["api_keys"] = rng.random() < 0.4
@@ -134,7 +209,36 @@ def run(ctx, case):
                 if e["msg"] == "BenchmarkComplete" and complete_at is None:
                     complete_at = e["t"]
         fired = sim.fault_time is not None
-        before_completion = fired and (complete_at is None or sim.fault_time < complete_at or kind == "rc-store")
+        fault_time = sim.fault_time
+        extra_tags = []
+        rcase = sc.get("retry_case")
+        if rcase:
+            # requests behind the retry wrapper: whether (and at which attempt) the race must end follows from the case, not from what
+            # the code made of the answers
+            key = (rcase["task"], rcase["client"])
+            made = sim.call_counter[key] - rcase["first_call"]  # attempts made from the first scripted answer on
+            deciding = retried_request_reference(rcase["retry"], rcase["script"], sc.get("on_error", "continue"))
+            fired = deciding is not None and made > deciding
+            ends = [e["end"] for e in sim.request_log if e["client"] == rcase["client"] and e["task"] == rcase["task"]]
+            fault_time = max(ends + [sim.fault_time or 0.0]) if fired else None
+            # the same walk through the model (Retry.retry composed with RaceCtl.execSingle), one invocation after the other
+            pos, m_deciding, m_tags = 0, None, []
+            while pos < len(rcase["script"]) and m_deciding is None:
+                r = rcase["retry"]
+                mm = ctx.model("racectl", "retried-request", {"ctor": False, "until": r.get("retry-until-success"), "retries": r.get("retries"),
+                                                               "on_error": r.get("retry-on-error"), "on_timeout": r.get("retry-on-timeout"), "wait": None,
+                                                               "outs": [ATTEMPT_KINDS[k] for k in rcase["script"][pos:]], "abort": sc.get("on_error") == "abort"})
+                m_tags += mm.get("tags", [])
+                if mm["r"]["result"] == "pending":
+                    break
+                if mm["r"]["result"] not in ("sample-ok", "sample-failed"):
+                    m_deciding = pos + mm["r"]["calls"] - 1
+                pos += max(1, mm["r"]["calls"])
+            extra_tags = sorted(set(m_tags))
+            if m_deciding != deciding:
+                ctx.diff("attempt whose outcome ends the race (model of Retry + execute_single vs. the documented retry settings)", m_deciding, deciding)
+            ctx.count("retry:" + ("ends-race" if deciding is not None else "race-goes-on") + (":reached" if made > (deciding if deciding is not None else len(rcase["script"]) - 1) else ":not-reached"))
+        before_completion = fired and (complete_at is None or fault_time < complete_at or kind == "rc-store")
         stored_results = any(sim.results_stored_flags()) if hasattr(sim, "results_stored_flags") else any(sim.results_stored)
         # ---------------- correspondence with the RaceCtl model ----------------
         known = {"EngineStarted", "PreparationComplete", "TaskFinished", "BenchmarkComplete", "BenchmarkFailure", "PoisonMessage", "BenchmarkCancelled", "EngineStopped"}
@@ -154,13 +258,13 @@ def run(ctx, case):
         if before_completion:
             want = "BenchmarkCancelled" if kind == "cancel" else "BenchmarkFailure"
             if not replies:
-                ctx.fail(cls + ":no-notification", f"the fault fired at t={sim.fault_time} but the caller of race() never got a reply ({res})", want, replies)
+                ctx.fail(cls + ":no-notification", f"the fault fired at t={fault_time} but the caller of race() never got a reply ({res})", want, replies)
             elif replies[0] == "Success":
                 ctx.fail(cls + ":reported-success", "a race with a fault was reported as successfully completed", want, replies)
             elif replies[0] != want and not (kind == "cancel" and replies[0] == "BenchmarkFailure"):
                 ctx.fail(cls + ":wrong-first-reply", "unexpected first reply", want, replies)
             else:
-                latency = sim.ss.times[0] - sim.fault_time
+                latency = sim.ss.times[0] - fault_time
                 bound = 8.0 + 2 * sc.get("max_wakeup_delay", 0.0) + (0.0 if sc.get("test_mode", True) else 6.0)
                 if latency > bound:
                     ctx.fail(cls + ":late-notification", "failure notification took longer than the bound", bound, latency)
@@ -174,18 +278,34 @@ def run(ctx, case):
                     ctx.fail(cls + ":race-json-results", "race.json contains results although the race had a fault", None, "results present")
         elif not fired:
             if replies[:1] != ["Success"] or not stored_results or len(sim.summaries) != 1:
-                ctx.fail("fault-free:not-success", "a race without any fault did not end with Success + stored results + one summary", ["Success", True, 1], [replies, stored_results, len(sim.summaries)])
+                ctx.fail("retried-request:not-success" if rcase else "fault-free:not-success", "a race without any fault did not end with Success + stored results + one summary", ["Success", True, 1], [replies, stored_results, len(sim.summaries)])
         # ---------------- a worker whose executor failed never moves on, so no barrier opens after the failure (Lean: C09.failed_executor_blocks_completion) ----
-        if fired and kind in EXECUTOR_KINDS:
-            late = [[e["t"], type(m).__name__] for e in sim.trace if e["ev"] in ("deliver", "wakeup") and e.get("t", 0.0) > sim.fault_time
+        # ---------------- track preparation with several processors: model of the preparation run + "prepared" means every task ran ----------------
+        if sc.get("prep_processors") is not None:
+            procs = [{"seed_raises": bool(sc["faults"].get(("prep-seed", i))), "task_fails": [bool(sc["faults"].get(("prep", i, k))) for k in range(p["tasks"])]}
+                     for i, p in enumerate(sc["prep_processors"])]
+            pm = ctx.model("racectl", "prep-run", {"procs": procs})
+            tags = tags + pm.get("tags", [])
+            prepared = "PreparationComplete" in rc_msgs
+            if (pm["r"]["outcome"] == "prepared") != prepared:
+                ctx.diff("track preparation completed", pm["r"]["outcome"], "prepared" if prepared else "not prepared")
+            if prepared:
+                # one track preparator per load driver host, each runs every task once
+                npreps = sum(1 for sh in sim.actors.values() if type(sh.inst).__name__ == "TrackPreparationActor")
+                want_tasks = sorted([i, k] for i, p in enumerate(sc["prep_processors"]) for k in range(p["tasks"]) for _ in range(max(1, npreps)))
+                if sorted(list(x) for x in sim.prep_done) != want_tasks:
+                    ctx.fail("prep-processors:prepared-without-all-tasks", "the track was declared prepared although not every task of every track processor "
+                             "had run exactly once (per track preparator)", want_tasks, sorted(list(x) for x in sim.prep_done))
+        if fired and kind in EXECUTOR_KINDS | {"request-retry"}:
+            late = [[e["t"], type(m).__name__] for e in sim.trace if e["ev"] in ("deliver", "wakeup") and e.get("t", 0.0) > fault_time
                     and (e.get("dst") if e["ev"] == "deliver" else e.get("actor")) == "driver"
                     for _dst, m in e.get("out", []) if type(m).__name__ in ("TaskFinished", "BenchmarkComplete")]
             if late:
-                ctx.fail(cls + ":step-completed-after-executor-failure", f"an executor failed at t={sim.fault_time}, yet the driver afterwards declared a step "
+                ctx.fail(cls + ":step-completed-after-executor-failure", f"an executor failed at t={fault_time}, yet the driver afterwards declared a step "
                          "(or the benchmark) complete: the failed worker must never reach its join point", [], late[:4])
             ctx.count("executor-failures-checked-for-late-completion")
         ctx.count("kind:" + kind + (":fired" if fired else ":not-fired"))
-        ctx.sig([kind, sorted(tags), fired, before_completion], nontrivial=True)
+        ctx.sig([kind, sorted(tags) + extra_tags, fired, before_completion], nontrivial=True)
     finally:
         shutil.rmtree(tmp, ignore_errors=True)
 
@@ -392,7 +512,266 @@ def run_poll(ctx, case):
     ctx.sig(["poll", m.get("tags"), case["samples"] > 0], nontrivial=True)
 
 
+# ---------------------------------------------------------------------------------------------
+# the track preparator's handlers as a decision table: the real TrackPreparationActor handlers (behind their no_retry guards) on an
+# instance of the real class created without its constructor, for every status x message x (what the next track processor does)
+# ---------------------------------------------------------------------------------------------
+def gen_prep_table(ctx):
+    from harness import sim_race as _sr
+
+    excs = ["RuntimeError"] + _sr.FAULT_CLASSES[:6]
+    i = 0
+    for nchildren in (2, 1, 3):
+        for st in ("none", "initializing", "running", "complete"):
+            for ev in ("failure", "poison"):
+                yield {"status": st, "event": ev, "children": nchildren}
+            for tl in (True, False):
+                yield {"status": st, "event": "ready", "tasks_left": tl, "children": nchildren}
+            for last in (True, False):
+                if not last and nchildren == 1:
+                    continue
+                for nxt in ("none-left", "seeds", "raises"):
+                    i += 1
+                    yield {"status": st, "event": "idle", "last": last, "next": nxt, "children": nchildren, "exc": excs[i % len(excs)]}
+
+
+def _exc_class(name):
+    import importlib
+
+    mod, _, cls = name.rpartition(".")
+    return getattr(importlib.import_module(mod), cls) if mod else getattr(__import__("builtins"), cls)
+
+
+def run_prep_table(ctx, case):
+    import logging
+    import queue
+
+    import thespian.actors
+
+    from esrally import actor, config
+    from esrally.driver import driver
+    from esrally.track import track
+
+    T = driver.TrackPreparationActor
+    S = T.Status
+    names = {None: "none", S.INITIALIZING: "initializing", S.PROCESSOR_RUNNING: "running", S.PROCESSOR_COMPLETE: "complete"}
+    status = {v: k for k, v in names.items()}[case["status"]]
+    tp = object.__new__(T)
+    children = [f"te{i}" for i in range(case["children"])]
+    sender = children[-1]
+    raw = []
+
+    class Proc:
+        def on_prepare_track(self, trk, data_root_dir):
+            if case.get("next") == "raises":
+                raise _exc_class(case["exc"])("the processor cannot determine its tasks (injected)")
+            return [(lambda: None, {})]
+
+    q = queue.Queue()
+    if case.get("next") in ("seeds", "raises"):
+        q.put(Proc())
+    answered = (case["children"] - 1) if case.get("last") else 0
+    tp.__dict__.update(status=status, children=list(children), received_responses=[driver.WorkerIdle() for _ in range(answered)], processors=q,
+                       tasks=[driver.WorkerTask(lambda: None, {})] if case.get("tasks_left") else [], driver_actor="driver", cfg=config.Config(),
+                       track=track.Track(name="t"), data_root_dir="/nonexistent", logger=logging.getLogger("esrally.driver.driver"),
+                       send=lambda dst, m: raw.append((dst, m)))
+    if case["event"] == "failure":
+        msg = actor.BenchmarkFailure("a task failed (injected)", "details")
+        T.receiveMsg_BenchmarkFailure(tp, msg, sender)
+    elif case["event"] == "poison":
+        msg = thespian.actors.PoisonMessage(driver.DoTask(None, None), "details")
+        T.receiveMsg_PoisonMessage(tp, msg, sender)
+    elif case["event"] == "ready":
+        msg = driver.ReadyForWork()
+        T.receiveMsg_ReadyForWork(tp, msg, sender)
+    else:
+        msg = driver.WorkerIdle()
+        T.receiveMsg_WorkerIdle(tp, msg, sender)
+    sends = []
+    loop_dsts = [d for d, m in raw if type(m).__name__ == "StartTaskLoop"]
+    for dst, m in raw:
+        n = type(m).__name__
+        if n == "BenchmarkFailure":
+            what = "forward-to-driver" if (dst == "driver" and m is msg) else "failure-to-driver" if dst == "driver" else "failure-to-sender" if dst == sender else f"failure-to:{dst}"
+        elif n == "DoTask":
+            what = ("do-task" if m.task is not None else "do-nothing") if dst == sender else f"do-task-to:{dst}"
+        elif n == "StartTaskLoop":
+            what = "start-task-loop" if sorted(loop_dsts) == sorted(children) else "start-task-loop:not-to-every-child"
+            if what in sends:
+                continue
+        elif n == "TrackPrepared":
+            what = "track-prepared" if dst == "driver" else f"track-prepared-to:{dst}"
+        else:
+            what = f"send:{n}"
+        sends.append(what)
+    impl = {"sends": sends, "status": names.get(tp.status, str(tp.status))}
+    args = {k: case[k] for k in ("status", "event", "tasks_left", "last", "next") if k in case}
+    m = ctx.model("racectl", "prep-handle", args)
+    if m["r"] != impl:
+        ctx.diff("what the track preparator does with one message", m["r"], impl)
+    # direct oracle (C09): a failure is passed on whatever the preparator is doing; a processor that cannot determine its tasks is reported;
+    # the track is declared prepared only when nothing is left to do
+    if case["event"] == "failure" and sends != ["forward-to-driver"]:
+        ctx.fail("prep:failure-not-forwarded", f"the track preparator (status {case['status']}) did not pass the BenchmarkFailure it received on to the driver",
+                 ["forward-to-driver"], sends)
+    if case["event"] == "poison" and sends != ["failure-to-driver"]:
+        ctx.fail("prep:poison-not-reported", "the track preparator did not turn a PoisonMessage into a BenchmarkFailure for the driver", ["failure-to-driver"], sends)
+    if case["event"] == "idle" and case["next"] == "raises" and case["status"] == "running" and case["last"]:
+        if len([x for x in sends if x.startswith(("failure-to", "forward-to"))]) != 1 or "track-prepared" in sends:
+            ctx.fail("prep:seeding-failure-not-reported", "the next track processor raised when asked for its tasks, but no BenchmarkFailure was sent",
+                     ["failure-to-sender"], sends)
+    if "track-prepared" in sends and not (case["event"] == "idle" and case["status"] == "running" and case["last"] and case["next"] == "none-left"):
+        ctx.fail("prep:prepared-too-early", "TrackPrepared although a processor or a child was still outstanding", [], sends)
+    ctx.sig(["prep-handle", case["event"], m.get("tags"), impl["status"]], nontrivial=True)
+
+
+# ---------------------------------------------------------------------------------------------
+# one request: the real execute_single on the registered runner stack (register_runner's wrappers, with and without runner.Retry around a
+# scripted innermost runner), every outcome class x error policy, and scripts of answers to the attempts
+# ---------------------------------------------------------------------------------------------
+DIRECT_OUTS = ["tuple2", "dict-success", "dict-no-key", "dict-fail", "other-value", "conn-error-exact", "conn-error-sub", "conn-timeout", "transport-other",
+               "api-error", "key-error", "other-exc"]
+RETRY_KINDS = ["dictOk", "dictFail", "nonDict", "sockTimeout", "connError", "connTimeout", "api408", "apiOther", "transportOther", "otherExc"]
+KIND2OUT = {"dictOk": "dict-success", "dictFail": "dict-fail", "nonDict": "other-value", "sockTimeout": "other-exc", "connError": "conn-error-exact",
+            "connTimeout": "conn-timeout", "api408": "api-error", "apiOther": "api-error", "transportOther": "transport-other", "otherExc": "other-exc"}
+
+
+def gen_exec(ctx):
+    rng = ctx.rng
+    for o in DIRECT_OUTS:
+        for abort in (True, False):
+            yield {"out": o, "abort": abort, "variant": rng.randrange(4)}
+    failing = [k for k in RETRY_KINDS if k not in ("dictOk", "nonDict")]
+    n = 0
+    while n < ctx.budget - 2 * len(DIRECT_OUTS):
+        n += 1
+        retries = rng.choice([None, 0, 1, 1, 2, 3])
+        first = rng.choice(failing)
+        budget = (retries or 0) + 1
+        ln = rng.choice([budget, budget, budget - 1, budget + 1, 1, rng.randint(0, 5)])
+        outs = [first if rng.random() < 0.75 else rng.choice(RETRY_KINDS) for _ in range(max(0, ln))]
+        yield {"retry": {"retries": retries, "on_timeout": rng.choice([None, None, True, False]), "on_error": rng.choice([None, None, True, False]),
+                         "until": rng.choice([None, None, None, None, False, True]), "ctor": rng.random() < 0.1},
+               "outs": outs, "abort": rng.random() < 0.75, "variant": rng.randrange(4)}
+
+
+def _make_outcome(out, variant):
+    """-> (is_exception, value)"""
+    import socket
+
+    import elastic_transport
+    import elasticsearch
+
+    from esrally import exceptions
+
+    def api(status):
+        meta = elastic_transport.ApiResponseMeta(status=status, http_version="1.1", headers=elastic_transport.HttpHeaders(), duration=0.0, node=None)
+        return elasticsearch.ApiError("simulated", meta=meta, body={"error": "simulated"})
+
+    v = variant
+    return {
+        "tuple2": lambda: (False, (3, "docs")),
+        "dict-success": lambda: (False, [{"weight": 2, "unit": "docs", "success": True}, {"success": True}, {"weight": 1, "unit": "ops", "success": True, "x": 1}, {"success": 1}][v]),
+        "dict-no-key": lambda: (False, [{"weight": 2, "unit": "docs"}, {}, {"took": 3}, {"unit": "ops"}][v]),
+        "dict-fail": lambda: (False, [{"weight": 2, "unit": "docs", "success": False}, {"success": False, "error-type": "bulk"}, {"success": False, "error-description": "x"}, {"success": 0}][v]),
+        "other-value": lambda: (False, [None, 7, "text", [1, 2, 3]][v]),
+        "conn-error-exact": lambda: (True, elasticsearch.ConnectionError("refused")),
+        "conn-error-sub": lambda: (True, [elastic_transport.TlsError("tls"), elasticsearch.SSLError("ssl")][v % 2]),
+        "conn-timeout": lambda: (True, elasticsearch.ConnectionTimeout("timed out")),
+        "transport-other": lambda: (True, [elastic_transport.SerializationError("ser"), elastic_transport.TransportError("plain"), elastic_transport.SniffingError("sniff"),
+                                           elastic_transport.TransportError("plain2")][v]),
+        "api-error": lambda: (True, api([500, 404, 429, 400][v])),
+        "api-408": lambda: (True, api(408)),
+        "key-error": lambda: (True, KeyError("missing-param")),
+        "other-exc": lambda: (True, [RuntimeError("x"), exceptions.RallyError("x"), ValueError("x"), ZeroDivisionError("x")][v]),
+        "sock-timeout": lambda: (True, socket.timeout("timed out")),
+    }[out]()
+
+
+def run_exec(ctx, case):
+    import asyncio
+
+    from esrally import exceptions
+    from esrally.driver import driver, runner
+
+    log = []
+
+    class Scripted:
+        def __init__(self, script):
+            self.script = script
+
+        async def __aenter__(self):
+            return self
+
+        async def __aexit__(self, *a):
+            return False
+
+        async def __call__(self, es, params):
+            k = self.script[len(log)] if len(log) < len(self.script) else "dict-success"
+            is_exc, val = _make_outcome(k, case["variant"])
+            log.append((k, val))
+            if is_exc:
+                raise val
+            return val
+
+        def __repr__(self):
+            return "scripted"
+
+    abort = case["abort"]
+    params = {"name": "t", "operation-type": "c09-scripted"}
+    if "out" in case:
+        script = [case["out"]]
+        runner.register_runner("c09-scripted", Scripted(script), async_runner=True)
+        m = ctx.model("racectl", "exec-single", {"out": case["out"], "abort": abort})
+        want = m["r"]
+    else:
+        r = case["retry"]
+        conc = {"sockTimeout": "sock-timeout", "api408": "api-408"}
+        script = [conc.get(k, KIND2OUT[k]) for k in case["outs"]]
+        runner.register_runner("c09-scripted", runner.Retry(Scripted(script), retry_until_success=True) if r["ctor"] else runner.Retry(Scripted(script)), async_runner=True)
+        for key, name in (("retries", "retries"), ("on_timeout", "retry-on-timeout"), ("on_error", "retry-on-error"), ("until", "retry-until-success")):
+            if r[key] is not None:
+                params[name] = r[key]
+        params["retry-wait-period"] = 0
+        m = ctx.model("racectl", "retried-request", {"ctor": r["ctor"], "until": r["until"], "retries": r["retries"], "on_error": r["on_error"], "on_timeout": r["on_timeout"],
+                                                     "wait": "0/1", "outs": case["outs"] + ["dictOk"], "abort": abort})
+        want = m["r"]["result"]
+    try:
+        async def go():
+            return await driver.execute_single(runner.runner_for("c09-scripted"), {"default": None}, params, "abort" if abort else "continue")
+
+        ops, unit, meta = asyncio.run(go())
+        got = "sample-ok" if meta["success"] else "sample-failed"
+    except exceptions.RallyAssertionError:
+        got = "assertion-error"
+    except exceptions.SystemSetupError:
+        got = "setup-error"
+    except BaseException as e:  # noqa
+        got = "propagates" if log and e is log[-1][1] else f"raised:{type(e).__name__}"
+    finally:
+        runner.remove_runner("c09-scripted")
+    if got != want:
+        ctx.diff("how the request ended (execute_single on the registered runner stack)", want, got)
+    if "retry" in case and m["r"]["calls"] != len(log):
+        ctx.diff("number of attempts", m["r"]["calls"], len(log))
+    # direct oracle (C09), on what the innermost runner was observed to do: under on-error=abort a request ends as a success only if one of
+    # its attempts returned something other than an unsuccessful result, and never as a recorded failed request; a refused connection
+    # ends it under every policy
+    good = [k for k, _ in log if k in ("tuple2", "dict-success", "dict-no-key", "other-value")]
+    if abort and got == "sample-ok" and not good and log:
+        ctx.fail("request:success-without-a-successful-attempt", "under on-error=abort the request counts as a success although every attempt ended with an error "
+                 "or an unsuccessful result", "an exception", [got, [k for k, _ in log]])
+    if abort and got == "sample-failed":
+        ctx.fail("request:failed-request-recorded-under-abort", "under on-error=abort a failed request was recorded as a sample instead of ending the task", "an exception", [got, [k for k, _ in log]])
+    if log and log[-1][0] == "conn-error-exact" and got != "assertion-error":
+        ctx.fail("request:fatal-connection-error-survived", "the request's last attempt ended with a refused connection, yet the request did not raise", "assertion-error", got)
+    ctx.count("exec:" + got)
+    ctx.sig(["exec", "direct" if "out" in case else "retried", m.get("tags"), got], nontrivial=True)
+
+
 STREAMS = [
     Stream("faulted_races", gen, run, quick=800, thorough=100000, shards=16),
     Stream("worker_poll_table", gen_poll, run_poll, quick=90, thorough=90, shards=1, exhaustive_thorough=True),
+    Stream("prep_handler_table", gen_prep_table, run_prep_table, quick=120, thorough=120, shards=1, exhaustive_thorough=True),
+    Stream("request_outcomes", gen_exec, run_exec, quick=400, thorough=20000, shards=2),
 ]
